@@ -108,9 +108,17 @@ def _prefix_outcome(project, prefix):
         return "RAISED %s" % type(e).__name__
 
 
-def panel(project, ids, filters):
+def _groupings(project, out):
+    # grouping reads the state points too (whatever the cache knows at that moment)
+    out["groupby_a"] = _try(lambda: sorted((repr(k), sorted(j.id for j in g)) for k, g in project.groupby("a", default=-99)))
+    out["groupby_bn"] = _try(lambda: sorted((repr(k), sorted(j.id for j in g)) for k, g in project.find_jobs().groupby("b.n", default=-1)))
+
+
+def panel(project, ids, filters, groupby_first=False):
     """Everything the statement quantifies over, asked of one Project object. `ids`: existing jobs only."""
     out = {}
+    if groupby_first:
+        _groupings(project, out)  # the very first thing this Project object is asked
     out["len"] = _try(lambda: len(project))
     out["ids"] = _try(lambda: sorted(j.id for j in project))
     for n, f in enumerate(filters):
@@ -124,6 +132,8 @@ def panel(project, ids, filters):
     # abbreviated ids of existing jobs resolve against the workspace, never against (stale) cache entries
     out["open_prefix"] = {i[:n]: _prefix_outcome(project, i[:n]) for i in ids for n in (1, 2, 3, 5)}
     out["iter_sp"] = _try(lambda: sorted((j.id, oracle.canon(j.statepoint())) for j in project))
+    if not groupby_first:
+        _groupings(project, out)
     # again, now that the persistent cache has certainly been read into memory
     out["len_again"] = _try(lambda: len(project))
     out["ids_again"] = _try(lambda: sorted(j.id for j in project.find_jobs()))
@@ -149,6 +159,13 @@ def expected_panel(model, filters):
             m = [j for j in ids if j.startswith(i[:n])]
             out["open_prefix"][i[:n]] = m[0] if len(m) == 1 else "LookupError"
     out["iter_sp"] = sorted((i, oracle.canon(model[i]["sp"])) for i in ids)
+    ga, gb = {}, {}
+    for i in ids:
+        ga.setdefault(repr(model[i]["sp"].get("a", -99)), []).append(i)
+        b = model[i]["sp"].get("b")
+        gb.setdefault(repr(b["n"] if isinstance(b, dict) and "n" in b else -1), []).append(i)
+    out["groupby_a"] = sorted((k, sorted(v)) for k, v in ga.items())
+    out["groupby_bn"] = sorted((k, sorted(v)) for k, v in gb.items())
     out["len_again"] = len(ids)
     out["ids_again"] = ids
     out["len_cursor"] = len(ids)
@@ -178,6 +195,7 @@ class Sim:
         self.root = ctx.tmpdir("c08")
         self.project = signac.init_project(self.root)
         self.filters = filters
+        self.gb_first = False
         self.model = {}
         self.mms = []
         self.cl = set()
@@ -457,12 +475,12 @@ class Sim:
         exp = expected_panel(self.model, self.filters)
         cache_state = "absent" if self.cache_bytes() is None else "lists %s" % [x[:6] for x in self._safe_keys(self.cache_bytes())]
         # (1) the running session
-        got_session = panel(self.project, ids, self.filters)
+        got_session = panel(self.project, ids, self.filters, self.gb_first)
         bad = panel_diff(got_session, exp)
         if bad:
             self.mm("session_panel_wrong", "running session (cache file %s): %s" % (cache_state, "; ".join(bad[:3])))
         # (2) fresh session on the live tree
-        got_live = panel(self.signac.Project(self.root), ids, self.filters)
+        got_live = panel(self.signac.Project(self.root), ids, self.filters, self.gb_first)
         # (3) fresh session on a byte copy without the cache file
         twin = self.ctx.tmpdir("c08twin")
         shutil.rmtree(twin)
@@ -471,7 +489,7 @@ class Sim:
             os.remove(os.path.join(twin, CACHE_REL))
         except FileNotFoundError:
             pass
-        got_nocache = panel(self.signac.Project(twin), ids, self.filters)
+        got_nocache = panel(self.signac.Project(twin), ids, self.filters, self.gb_first)
         shutil.rmtree(twin, ignore_errors=True)
         bad_nc = panel_diff(got_nocache, exp)
         if bad_nc:
@@ -534,6 +552,17 @@ def run_bulk(case, ctx):
         for rnd in range(2 if more else 1):
             if rnd == 1:
                 model.update(make(n, n + more))
+            # a new session queries the big workspace while the cache file is absent / out of date by hundreds of
+            # jobs: the answers are those of the workspace
+            try:
+                sess = signac.Project(root)
+                hit = sorted(j.id for j in sess.find_jobs({"bulk": {"$lt": 3}}))
+                want_hit = sorted(i for i, v in model.items() if v["bulk"] < 3)
+                seen = sum(1 for j in sess if oracle.job_id(dict(j.cached_statepoint)) == j.id)
+                if hit != want_hit or seen != len(model):
+                    mms.append(Mismatch("panel_wrong_without_cache", f"workspace of {len(model)} jobs, cache file {'absent' if rnd == 0 else 'lists %d jobs' % n}: find_jobs(bulk < 3) gives {len(hit)} jobs (expected {len(want_hit)}); {seen} of {len(model)} iterated jobs come with their own state point"))
+            except Exception as e:
+                mms.append(Mismatch("panel_wrong_without_cache", f"workspace of {len(model)} jobs, cache file {'absent' if rnd == 0 else 'lists %d jobs' % n}: querying raised {type(e).__name__}: {e}"))
             ret = signac.Project(root).update_cache()
             with gzip.open(os.path.join(root, ".signac", "statepoint_cache.json.gz"), "rb") as f:
                 cached = _json.loads(f.read().decode())
@@ -557,6 +586,7 @@ def run_case(case, ctx):
     idx = [i for i in case.get("filters", []) if isinstance(i, int)]
     filters = [FILTER_POOL[i % len(FILTER_POOL)] for i in idx]
     sim = Sim(ctx, filters)
+    sim.gb_first = bool(case.get("gb_first"))
     sim.run([o for o in case.get("ops", []) if isinstance(o, dict)])
     return {"mismatches": sim.mms, "classes": sorted(sim.cl), "nontrivial": sim.nontrivial}
 
@@ -607,7 +637,7 @@ def cases(draw):
             ops += draw(st.lists(st.one_of(UPDATE, OBSERVE, UPDATE, MUT), min_size=1, max_size=3))
         ops += draw(st.lists(ANY, max_size=8))
         ops = ops[:40]
-    return {"filters": filters, "ops": ops}
+    return {"filters": filters, "ops": ops, "gb_first": draw(st.booleans())}
 
 
 SMALL = [
@@ -674,8 +704,8 @@ def run(ctx):
             complete = False
             continue
         body = [SMALL[j] for j in seq]
-        ctx.apply({"filters": F6, "ops": body + SUFFIX})
-        ctx.apply({"filters": F6, "ops": PREFIX + body + SUFFIX})
+        ctx.apply({"filters": F6, "ops": body + SUFFIX, "gb_first": bool(i % 2)})
+        ctx.apply({"filters": F6, "ops": PREFIX + body + SUFFIX, "gb_first": not i % 2})
     if complete:  # size of the whole enumerated sub-space (sharded over the workers)
         ctx.exhaustive["sequences_len<=%d_over_%d_symbols_x_{empty,cached}_prefix" % (L, len(SMALL))] = total
     else:
